@@ -40,26 +40,26 @@ var treePageSizes = []int{80, 96, 112, 144, 272, 4096}
 const treeAbsMax = uint64(math.MaxUint64 - 1)
 
 type treeCase struct {
-	r        *Run
-	t        *z.Tree
-	ps, mk   int
-	kind     string
-	id       int
-	ref      map[uint64]uint64
-	used     map[uint64]bool
-	usedList []uint64
-	hist     []string
-	nops     int
-	sinceW   int
-	lastWalk z.VerifTreeWalk
-	haveWalk bool
-	path     string // persistent trees
-	dead     bool   // the implementation panicked in a way that leaves the tree unusable
-	recycled bool   // a page was taken from the free list
-	splits   bool
-	reopened int
-	quiet    bool // bulk phases: log only the Set itself (Stats / read-back every 4096 operations)
-	finalGets int // > 0: read back only that many sampled keys at the end (IterateKV has compared all pairs)
+	r         *Run
+	t         *z.Tree
+	ps, mk    int
+	kind      string
+	id        int
+	ref       map[uint64]uint64
+	used      map[uint64]bool
+	usedList  []uint64
+	hist      []string
+	nops      int
+	sinceW    int
+	lastWalk  z.VerifTreeWalk
+	haveWalk  bool
+	path      string // persistent trees
+	dead      bool   // the implementation panicked in a way that leaves the tree unusable
+	recycled  bool   // a page was taken from the free list
+	splits    bool
+	reopened  int
+	quiet     bool // bulk phases: log only the Set itself (Stats / read-back every 4096 operations)
+	finalGets int  // > 0: read back only that many sampled keys at the end (IterateKV has compared all pairs)
 }
 
 func (c *treeCase) input() string {
